@@ -217,7 +217,15 @@ def run_closed(spec, rec, dadi):
         tags["negative_coefficient"] = bool(np.any(p0 < 0))
         m = B @ p0
         Bm = B[mid]
-        d = np.asarray(data.data)[mid]
+        if ci % 5 == 1 and n >= 10:
+            # the data hide one or two bins the bootstraps show (a bin left out of the fit of the full data only): the data's
+            # information H is over the data's visible bins, every bootstrap's score over that bootstrap's own
+            data = data.copy()
+            for j in rng.choice(np.arange(2, n - 1), size=int(rng.integers(1, 3)), replace=False):
+                data.mask[int(j)] = True
+            tags["data_hides_bins"] = True
+        dv = (~np.asarray(np.ma.getmaskarray(data)))[mid]
+        d = np.where(dv, np.asarray(data.data)[mid], 0.0)          # (hidden bins contribute nothing to the data's likelihood)
         H = (Bm.T * (d / m[mid] ** 2)) @ Bm
         grads = [Bm.T @ (-1 + np.asarray(b.data)[mid] / m[mid]) for b in boots]
         J = sum(np.outer(g, g) for g in grads) / len(boots)
@@ -233,7 +241,7 @@ def run_closed(spec, rec, dadi):
         positive = bool(np.all(p0 > 0))          # (log parameters exist for positive parameters only)
         ok, fl = rec.noraise("returns", lambda: Godambe.FIM_uncert(model, [10], p0, data, multinom=False, eps=eps, log=True, return_FIM=True), site="Godambe.FIM_uncert", tags=tags) if positive else (False, None)
         if ok:
-            g0 = Bm.T @ (-1 + d / m[mid])               # gradient of ll at p0 wrt p
+            g0 = Bm.T @ (dv * (-1 + d / m[mid]))        # gradient of ll at p0 wrt p (visible bins of the data)
             Hl = np.diag(p0) @ H @ np.diag(p0) - np.diag(g0 * p0)     # chain rule for d/dlog p
             rec.close("FIM-closed-form", float(np.max(np.abs(np.asarray(fl[1]) - Hl)) / np.max(np.abs(Hl))), 4 * tol, site="Godambe.FIM_uncert", tags=dict(tags, log=True))
         # (1) the matrices behind every statistic against their closed forms, O(eps^2) relative to their natural scales
@@ -256,7 +264,7 @@ def run_closed(spec, rec, dadi):
             okh, hh = rec.noraise("returns", lambda: Godambe.get_godambe(model, [10], boots, list(p0), data, eps, just_hess=True), site="Godambe.get_godambe", tags=tags)
             if okh:
                 rec.close("godambe-matrices-closed-form", float(np.max(np.abs(np.asarray(hh, float) - Hc)) / np.max(np.abs(Hc))), 1e-12, site="Godambe.get_godambe", tags=dict(tags, what="just_hess"))
-            g0 = Bm.T @ (-1 + d / m[mid])
+            g0 = Bm.T @ (dv * (-1 + d / m[mid]))
             Hl = np.diag(p0) @ H @ np.diag(p0) - np.diag(g0 * p0)
             Jl = np.diag(p0) @ J @ np.diag(p0)
             Gl = Hl @ np.linalg.inv(Jl) @ Hl
@@ -328,12 +336,18 @@ def run_closed(spec, rec, dadi):
 
         def stats(e):
             out = {}
-            out["GIM"] = np.asarray(Godambe.GIM_uncert(model, [10], boots, list(p0), data, multinom=False, eps=e), float)
-            out["LRT"] = float(Godambe.LRT_adjust(model, [10], boots, list(p0), data, nested, multinom=False, eps=e))
-            sc = Godambe.score_stat(model, [10], boots, list(p0), data, nested, multinom=False, eps=e, adj_and_org=True)
-            out["score"], out["score-unadj"] = float(sc[0]), float(sc[1])
-            wa = Godambe.Wald_stat(model, [10], boots, list(p0), data, nested, full, multinom=False, eps=e, adj_and_org=True)
+            # every other case hands ONE float array over to all four calls, in the order a user would make them (Wald first): the
+            # caller's array comes back untouched, so each call sees the same point
+            pa = np.array(p0, dtype=float) if ci % 2 else None
+            arg = (lambda: pa) if pa is not None else (lambda: list(p0))
+            wa = Godambe.Wald_stat(model, [10], boots, arg(), data, nested, full, multinom=False, eps=e, adj_and_org=True)
             out["Wald"], out["Wald-unadj"] = float(wa[0]), float(wa[1])
+            sc = Godambe.score_stat(model, [10], boots, arg(), data, nested, multinom=False, eps=e, adj_and_org=True)
+            out["score"], out["score-unadj"] = float(sc[0]), float(sc[1])
+            out["LRT"] = float(Godambe.LRT_adjust(model, [10], boots, arg(), data, nested, multinom=False, eps=e))
+            out["GIM"] = np.asarray(Godambe.GIM_uncert(model, [10], boots, arg(), data, multinom=False, eps=e), float)
+            if pa is not None:
+                rec.check("parameter-array-untouched", bool(np.array_equal(pa, np.asarray(p0, float))), site="Godambe", tags=tags, observed=pa, expected=p0)
             return out
         ok1, s1 = rec.noraise("returns", lambda: stats(eps), site="Godambe", tags=tags)
         ok2, s2 = rec.noraise("returns", lambda: stats(eps / 2), site="Godambe", tags=tags)
